@@ -45,6 +45,8 @@ def frac_str(x):
 
 
 class Exporter:
+    allow_cont = False      # export Normal / Uniform / Laplace draws (the harness replaces them by moment-matched finite laws)
+
     def __init__(self, variables, point, dparam=None):
         """variables: iterable of names; point: dict symbol name -> Fraction string; dparam: name of the
         parameter w.r.t. which coefficients also carry their derivative (dual numbers)."""
@@ -102,6 +104,13 @@ class Exporter:
             return ["categorical", [self.scalar(p) for p in d.probabilities]]
         if name == "DiscreteUniform":
             return ["duniform", int(d.values[0]), int(d.values[-1])]
+        if self.allow_cont and self.dparam is None:
+            if name == "Normal":
+                return ["normal", self.poly(d.mu), self.scalar(d.sigma2)]
+            if name == "Uniform":
+                return ["uniform", self.poly(d.a), self.poly(d.b)]
+            if name == "Laplace":
+                return ["laplace", self.poly(d.mu), self.scalar(d.b)]
         raise Unsupported(f"distribution {name}")
 
     def stmts(self, ss):
@@ -499,6 +508,14 @@ def job_analyze(job):
             res["parsed"] = exporter_factory(program)
         except Unsupported as ex:
             res["parsed_unsupported"] = str(ex)
+            if "cont" in want:
+                Exporter.allow_cont = True
+                try:
+                    res["parsed_cont"] = exporter_factory(program)
+                except Unsupported as ex2:
+                    res["parsed_cont_unsupported"] = str(ex2)
+                finally:
+                    Exporter.allow_cont = False
 
     # ---- normalize (recording every pass)
     if "passes" in want:
